@@ -687,17 +687,27 @@ func (c *Ctx) ParamsDoc(withPathVars bool, withBodies ...bool) *Doc {
 	d := c.Doc
 	np := rapid.IntRange(2, 4).Draw(t, "npaths")
 	for i := 0; i < np; i++ {
-		segs := []string{c.PlainName("r", "seg")}
+		// constant segments are mostly ASCII words; some hold multi-byte characters (the
+		// router and the path parser work on the decoded path, byte lengths matter there)
+		constSeg := func(prefix string) string {
+			w := c.PlainName(prefix, "seg")
+			if rapid.IntRange(0, 4).Draw(t, "seg_multibyte") == 0 {
+				c.Tag("path:multibyte-constant")
+				return rapid.SampledFrom([]string{"caf\u00e9", "m\u00fcnchen-s\u00fcd", "\u65e5\u672c", "na\u00efve", "\u00e9"}).Draw(t, "seg_mb") + w
+			}
+			return w
+		}
+		segs := []string{constSeg("r")}
 		var pathVars []*Parameter
 		if withPathVars && rapid.Bool().Draw(t, "has_pathvar") {
 			nv := rapid.IntRange(1, 2).Draw(t, "npathvars")
 			for j := 0; j < nv; j++ {
 				name := c.PlainName("v", "var")
 				segs = append(segs, "{"+name+"}")
-				prim := rapid.SampledFrom(PathVarPrims).Draw(t, "pathvar_prim")
+				prim := c.maybeLayout(rapid.SampledFrom(PathVarPrims).Draw(t, "pathvar_prim"), "pathvar_prim")
 				pathVars = append(pathVars, &Parameter{Name: name, In: "path", Required: true, Schema: prim.Schema()})
 				if rapid.Bool().Draw(t, "lit_between") {
-					segs = append(segs, c.PlainName("s", "seg"))
+					segs = append(segs, constSeg("s"))
 				}
 			}
 		}
@@ -742,7 +752,14 @@ func (c *Ctx) ParamsDoc(withPathVars bool, withBodies ...bool) *Doc {
 			// override a path-item level parameter with a different declaration
 			for _, pl := range pi.Parameters {
 				r := d.ResolveParameter(pl)
-				if r == nil || r.In == "path" || rapid.IntRange(0, 2).Draw(t, "override") != 0 {
+				if r == nil || rapid.IntRange(0, 2).Draw(t, "override") != 0 {
+					continue
+				}
+				if r.In == "path" {
+					// the operation re-declares the path variable with another type
+					prim := rapid.SampledFrom(PathVarPrims).Draw(t, "pathvar_override_prim")
+					op.Parameters = append(op.Parameters, &Parameter{Name: r.Name, In: "path", Required: true, Schema: prim.Schema()})
+					c.Tag("param:override-path")
 					continue
 				}
 				ov := &Parameter{Name: r.Name, In: r.In, Required: !r.Required, Schema: c.ParamSchema(r.In, "override")}
